@@ -226,12 +226,27 @@ def worker_source(c):
     raise ValueError(k)
 
 
-def run_program(prog, chooser, seed, line_budget=0, cut_w2i=None, remote_backend="thread", io_kind="popen"):
+def _complete_frames(frames, cut):
+    """(message code, channel id) of every frame the worker wrote that lies entirely before the cut: what HAD ARRIVED COMPLETELY"""
+    import struct
+
+    out, acc = [], 0
+    for f in frames:
+        acc += len(f)
+        if cut is not None and acc > cut:
+            break
+        if len(f) >= 9:
+            code, cid, _n = struct.unpack("!bii", f[:9])
+            out.append((code, cid))
+    return out
+
+
+def run_program(prog, chooser, seed, line_budget=0, cut_w2i=None, remote_backend="thread", io_kind="popen", cut_both=False):
     """returns observations per conversation + gateway-level facts"""
     from execnet.gateway_base import RemoteError
 
     sc = S.Sched(chooser, line_budget=line_budget, max_steps=400000)
-    pr = P.Pair(sc, remote_backend=remote_backend, seed=seed, cut_w2i=cut_w2i, io_kind=io_kind)
+    pr = P.Pair(sc, remote_backend=remote_backend, seed=seed, cut_w2i=cut_w2i, io_kind=io_kind, cut_both=cut_both)
     pr.worker_notes = []
     P.CURRENT = pr
     gw = pr.gw
@@ -306,6 +321,24 @@ def run_program(prog, chooser, seed, line_budget=0, cut_w2i=None, remote_backend
                 ch.setcallback(lambda x: o["got"].append(x), endmarker=END)
                 o["dropped"] = True
                 return "drop"
+            elif mode == "callback_raises_local":
+                END = ("END",)
+
+                def cb(x):
+                    o["got"].append(x)
+                    if len(o["got"]) == 2:
+                        raise ValueError("local-callback-boom")
+
+                ch.setcallback(cb, endmarker=END)
+                try:
+                    ch.waitclose(timeout=20)
+                    o["end"] = "closed"
+                except RemoteError as e:
+                    o["end"] = "RemoteError"
+                    o["errtext"] = str(e)
+                except EOFError:
+                    o["end"] = "EOFError"
+                return
             elif mode in ("callback", "callback_late", "callback_mid"):
                 if mode in ("callback_late", "callback_mid"):
                     pr.em_i.sleep(0.5)  # lets items queue up first (virtual time)
@@ -543,6 +576,7 @@ def run_program(prog, chooser, seed, line_budget=0, cut_w2i=None, remote_backend
         final["worker_channels_left"] = sorted(pr.worker._channelfactory._channels.keys())
         final["worker_callbacks_left"] = sorted(pr.worker._channelfactory._callbacks.keys())
         if cut_w2i is not None:
+            final["cut_hit_at_checks"] = pr.w2i.cut_hit      # the break may lie behind the last byte this program ever writes
             final["error_recorded"] = type(getattr(gw, "_error", None)).__name__
             for name, f in (("send", lambda: spare.send(1)), ("newchannel", lambda: gw.newchannel()), ("remote_exec", lambda: gw.remote_exec("pass"))):
                 try:
@@ -585,7 +619,8 @@ def run_program(prog, chooser, seed, line_budget=0, cut_w2i=None, remote_backend
         pr.restore()
     errs = [repr(t.exc)[:200] for t in sc.threads if t.exc is not None]
     return {"result": res, "obs": obs, "final": final, "schedule": sc.trace, "worker_notes": pr.worker_notes, "thread_errors": errs,
-            "clock": sc.clock, "done": sorted(done), "w2i_total": pr.w2i.total_written, "w2i_frames": [len(f) for f in pr.w2i.frames_written]}
+            "clock": sc.clock, "done": sorted(done), "w2i_total": pr.w2i.total_written, "w2i_frames": [len(f) for f in pr.w2i.frames_written],
+            "w2i_complete": _complete_frames(pr.w2i.frames_written, cut_w2i)}
 
 
 def canon_item(x):
